@@ -700,9 +700,22 @@ fn actor_run(id: ActorId, c: &mut Commands, readers: Readers, local_ctr: u32, cl
     });
     push(TEv::RunEnter{ id: rid, local_ctr, closure_ctr, variant, readers });
 
-    // script (lazily chosen)
+    // script fixed by the configuration (probe actors)
+    let fixed: Option<Vec<Op>> = with_ctx(|x| {
+        if !x.cfg.fixed_scripts.iter().any(|(a, _, _)| *a == id) { return None; }
+        Some(x.cfg.fixed_scripts.iter().find(|(a, r, _)| *a == id && *r == rid.run).map(|(_, _, ops)| ops.clone()).unwrap_or_default())
+    });
     let mut idx: u16 = 0;
-    if !over_cap
+    if let Some(ops) = fixed
+    {
+        for op in ops
+        {
+            issue_op(c, op, CmdId{ by: Issuer::Run(rid), idx }, false, rm.as_deref_mut());
+            idx += 1;
+        }
+    }
+    // script (lazily chosen)
+    else if !over_cap
     {
         loop
         {
@@ -946,6 +959,15 @@ fn run_program(cfg: &Arc<Config>)
         with_ctx(|x| x.tops.push(op));
         top_level(&mut app, op, Issuer::Top, idx, cfg.update_after_top);
         idx += 1;
+    }
+    if !cfg.final_ops.is_empty()
+    {
+        push(TEv::Value{ what: "probe-start".into(), value: 0 });
+        for op in cfg.final_ops.iter()
+        {
+            top_level(&mut app, *op, Issuer::Top, idx, false);
+            idx += 1;
+        }
     }
     if cfg.final_gc
     {
